@@ -94,7 +94,7 @@ def _grid_case(case):
     refused = 0
     n_eval = 0
     maxrel = 0.0
-    for var in VARIATIONS if order[0] >= 4 else VARIATIONS[:1]:
+    for var in [tuple(case["variation"])]:
         for Nraw in NLAT:
             N = Nraw
             where = f"nf={nf} order={order} fhmruvv={fh} variation={var} N={N}"
@@ -262,17 +262,24 @@ def run(ctx):
     for nf in (3, 4, 5, 6):
         for order in ORDERS:
             for fh in (True, False) if order[0] >= 4 else (True,):
-                cases.append({"kind": "grid", "nf": nf, "order": list(order), "fhmruvv": fh})
+                if order[0] < 4:
+                    variations = VARIATIONS[:1]
+                elif order[1] == 2 or ctx.thorough():
+                    variations = VARIATIONS
+                else:
+                    variations = VARIATIONS[:3]  # quick: the single-entry deviations only on the (4,2) grid
+                for var in variations:
+                    cases.append({"kind": "grid", "nf": nf, "order": list(order), "fhmruvv": fh, "variation": list(var)})
     for N in NLAT:
         cases.append({"kind": "aem2", "N": {"re": complex(N).real, "im": complex(N).imag}})
     results = ctx.run_cases(cases, evaluate)
     ctx.extra["grids_compared"] = sum((r[1][3] or {}).get("grids", 0) for r in results)
     ctx.rule = (
         "complete product nf 3-6 x QED orders {1..4}x{1,2} x (order 4: both N3LO variants x 17 variation "
-        "tuples = 3 uniform + all 14 single-entry deviations) x 12 complex N (real, on and off the "
+        "tuples = 3 uniform + all 14 single-entry deviations; quick tier: the 14 deviations on the (4,2) grid only) x 12 complex N (real, on and off the "
         "inversion contours, near N=1, large |Im N|); per point the three QED grids are compared slot by "
-        "slot with gamma_singlet/gamma_ns; plus 12 N for the O(aem^2) charge structure across nf 3-6; the "
-        "same set in both tiers; non-trivial = at least one grid was produced and compared "
+        "slot with gamma_singlet/gamma_ns; plus 12 N for the O(aem^2) charge structure across nf 3-6; "
+        "non-trivial = at least one grid was produced and compared "
         "(FHMRUVV singlet at nf=6 is refused by both the QCD and the QED entry point)"
     )
     ctx.assumptions += [
